@@ -56,6 +56,11 @@ class LoopMonitor:
             g.add_edge(u.event_type, v.event_type)
         return g
 
+    def failed(self, orig, exc):
+        self.calls += 1
+        self.violations.append(["detect-loops-raises",
+                                type(exc).__name__])
+
     def after(self, orig, out):
         import networkx as nx
         from tel2puml.loop_detection.loop_types import LoopEvent
@@ -278,6 +283,11 @@ def _child_learn(unit: dict) -> dict:
         "kill": puml_sem.count_kind(ast, ("kill",)),
         "events": len(puml_sem.event_name_list(ast)),
     }
+    import sys
+
+    # the code under test runs under the interpreter's default recursion
+    # limit (puml_sem raises it for the reference model's own recursion)
+    sys.setrecursionlimit(1000)
     try:
         if unit.get("via_cli"):
             text = learn_through_cli(pv)
@@ -301,6 +311,7 @@ def _child_learn(unit: dict) -> dict:
         rec["status"] = "exc"
         rec["exc"] = type(e).__name__ + ":" + str(e)[:120]
         text = None
+    sys.setrecursionlimit(20000)
     rec["steps"] = sm.steps
     rec["uuid_calls"] = sm.uuid_calls
     rec["clock_calls"] = sm.clock_calls
